@@ -204,8 +204,32 @@ def run_case(case):
             content = os.path.dirname(content) + "//" + os.path.basename(content)
         metas = {}
         swallowed = False
+        # warm-up: every route is first used once with a *different*, maximal option set, so that options which leak from
+        # one invocation into the next (a parser or default object shared between calls) show up inside a single case
+        warm = {"tree": tree, "opts": {"announce": ["http://warm.example/a", "http://warm.example/b"], "web-seed": ["http://warm.example/w"],
+                                       "http-seed": ["http://warm.example/h"], "private": True, "source": "WARM", "comment": "warm up",
+                                       "piece-length": "17", "meta-version": "3" if case["opts"].get("meta-version", "1") != "3" else "2"},
+                "cli_order": ["announce", "web-seed", "http-seed", "private", "source", "comment", "piece-length", "meta-version"],
+                "content_pos": 99, "short_flags": False, "tracker_alias": False, "out_dir_form": False}
+        if case.get("warm_up", True):
+            try:
+                wdir = os.path.join(scr, "warm")
+                os.makedirs(wdir)
+                old = os.getcwd()
+                os.chdir(scr)
+                try:
+                    target.execute(cli_argv(warm, content, os.path.join(wdir, "cli.torrent"))[0])
+                    with open(os.path.join(scr, "warm.ini"), "w", encoding="ascii") as fd:
+                        fd.write(config_text(warm, os.path.join(wdir, "config.torrent")))
+                    target.execute(["create", "--config", "--config-path", os.path.join(scr, "warm.ini"), content])
+                    kw = lib_kwargs(warm, content, os.path.join(wdir, "lib.torrent"))
+                    with target.quiet():
+                        target.torrent.TorrentAssembler(**kw).write()
+                finally:
+                    os.chdir(old)
+            except (Exception, SystemExit):  # noqa: BLE001 - the warm-up's own outcome is not judged
+                pass
         for route in ("cli", "config", "lib"):
-            target.reset()
             odir = os.path.join(scr, "out-" + route)
             os.makedirs(odir)
             out = odir + "/" if case["out_dir_form"] else os.path.join(odir, "res.torrent")
